@@ -781,6 +781,8 @@ theorem ncc_drainLoop (w : Nat) (q : List Entry) : ∀ c : Core, NCC c (drainLoo
     intro c
     simp only [drainLoop]
     split
+    · exact NCC.same rfl
+    split
     · exact NCC.trans (b := c.emit (.qdrop e.sid c.now .expired)) (NCC.same rfl) (ih _)
     · split
       · exact NCC.trans (b := c.emit (.qdrop e.sid c.now .encErr)) (NCC.same rfl) (ih _)
